@@ -56,7 +56,7 @@ def prog(pat: int, s1: int, s2: int, s3: int, exc: int) -> bool:
     nh = max(1, hlib.NPARTS // len(PARTS))
     pattern = pick(PATTERNS[half::nh], pat)
     n = nslot_ops()
-    third = list(range(n)) if hlib.TIER == "thorough" else [0, 3, 4, 7]  # quick: last slot write / clear / reset / read-back
+    third = list(range(8)) if hlib.TIER == "thorough" else [0, 3, 4, 7]  # quick: last slot write / clear / reset / read-back
     sel = [pick(list(range(n)), s1), pick(list(range(n)), s2), pick(third, s3)]
     exc = pick([0, 1], exc)
     if pattern is None or None in sel or exc is None:
@@ -216,7 +216,7 @@ def values(ctxk: int, s1: int, s2: int, x: int, y: int, v: int) -> bool:
 
 
 def plan(tier):
-    t = 300 if tier == "quick" else 2400
+    t = 300 if tier == "quick" else 900
     return [
         {"fn": "prog", "nparts": len(PARTS) * (4 if tier == "quick" else 23), "timeout": t},
         {"fn": "values", "nparts": len(PARTS), "timeout": t},
